@@ -64,7 +64,13 @@ def run(ctx):
     sel = [x for i, x in enumerate(dates) if i % step == off or x[2] >= 28 or x[2] == 1]
     if ctx.quick:
         sel = [x for x in sel if x[0] % 3 == off % 3 or x[2] >= 28]
-    cases = [{"date": x, "tss": (TSS[:2] if ctx.quick else TSS) + (FAR if (x[2] == 1 and x[1] in (1, 7)) or not ctx.quick else [])} for x in sel]
+    # "the same for every reference time" includes reference times ON the written date (before / after the clock time), the evening
+    # before and the morning after - where 'today'-style heuristics would bite
+    def near(x):
+        y, m, d = x
+        return [(y, m, d, 0, 0), (y, m, d, 12, 43), (y, m, d, 23, 59)]
+    cases = [{"date": x, "tss": (TSS[:2] if ctx.quick else TSS) + (FAR if (x[2] == 1 and x[1] in (1, 7)) or not ctx.quick else []) + near(x)}
+             for x in sel]
     # dates outside 1990-2029 that the year pattern still accepts, incl. the century rule (1900 is not a leap year)
     cases += [{"date": x, "tss": TSS[:2]} for x in [(1900, 2, 28), (1900, 3, 1), (1999, 12, 31), (1996, 2, 29), (1904, 2, 29), (1950, 6, 15)]]
     core.run_stage(ctx, "rule-rows", cases, rows_for_date, "RulesTrace", sig_keys=(), nontrivial=lambda c: c["date"])
@@ -83,7 +89,7 @@ def run(ctx):
             named = "Month" in lab
             if named and G.military_year_like(y):
                 continue
-            for ts in tss:
+            for ts in tss + [(y, m, d, 12, 43)]:
                 cases.append({"text": text, "D": D, "ts": ts, "label": lab, "form": lab})
             if d in (1, 31) or not ctx.quick:
                 yl = tss[0][0]      # a clock whose digits read as the reference year or the next (20:18 at 2018)
@@ -95,6 +101,9 @@ def run(ctx):
                     C = G.clock(H, M)
                     ccases.append({"text": text + " " + ctext, "D": D, "C": C, "ts": tss[0], "label": lab + "+clock", "form": lab})
                     ccases.append({"text": ctext + " " + text, "D": D, "C": C, "ts": tss[-1], "label": "clock+" + lab, "form": lab})
+                    # the reference time on the written date itself, before and after the written clock time
+                    ccases.append({"text": text + " " + ctext, "D": D, "C": C, "ts": (y, m, d, 12, 43), "label": lab + "+clock@same-day", "form": lab})
+                    ccases.append({"text": ctext + " " + text, "D": D, "C": C, "ts": (y, m, d, 0, 0), "label": "clock+" + lab + "@same-day", "form": lab})
     # numeric dates (incl. two-digit years = 20yy) under reference times far from the date: 1970s, 2050s, 2099
     far = [(1975, 6, 1, 10, 0), (1949 + 21, 1, 1, 0, 0), (2055, 3, 3, 3, 3), (2099, 12, 31, 23, 59)]
     for (y, m, d) in [(2013, 3, 5), (2029, 12, 31), (2000, 2, 29), (2001, 1, 1), (1999, 12, 31), (2024, 2, 29)]:
